@@ -305,8 +305,8 @@ def codec(run):
     run.compare("crc_parse", [cparse[i] for i in ok_hdr], [cp_i[i] for i in ok_hdr], cpm)
     sp_i = [impl_parse(s, kb, d) for s, d, t in sparse]
     ok_hdr = [i for i, (s, d, t) in enumerate(sparse) if impl_hdr_dec(s, d)[0] == 0]
-    spm = M.call_many("sealed_parse", [[kid, S.unpack_header(sparse[i][2]), sparse[i][2]] for i in ok_hdr])
-    run.compare("sealed_parse", [sparse[i][:2] for i in ok_hdr], [sp_i[i] for i in ok_hdr], spm)
+    spm = M.call_many("pack_sealed_parse", [[kid, S.unpack_header(sparse[i][2]), sparse[i][2]] for i in ok_hdr])
+    run.compare("pack_sealed_parse", [sparse[i][:2] for i in ok_hdr], [sp_i[i] for i in ok_hdr], spm)
     run.count("parse_refused", sum(1 for x in cp_i + sp_i if x[0] == 1))
     # toy tag itself (python re-statement used above) and crc32
     tc = [[r.randrange(2 ** 31), rnd_bytes(r, 12), rnd_bytes(r, 20)] for _ in range(30)]
@@ -438,6 +438,38 @@ def gen_histories(run):
             h.tick(2)
         return h
 
+    def retry_pairs(role, mtu):
+        """two / three un-acked BEST_EFFORT messages that fall due for re-sending in the SAME tick (after a
+        stall) and whose accounted size straddles the capacity: the re-send pass of _build_packet_impl has
+        its own fit test"""
+        h = Hist(role, mtu, "retry-pairs")
+        h.complete = False
+        mp = cap(mtu)
+        k = 0
+        for d in (-9, -6, -3, -1, 0, 1, 2, 3, 5, 6, 8, 9):
+            a = r.randrange(1, mp - 12)
+            b = mp + 2 - 10 - a + d            # a + b + overhead(2) = mp + 2 + d
+            if b < 0:
+                continue
+            h.send(fill(k, a), 1); h.tick(1)
+            h.send(fill(k + 1, b), 1); h.tick(1)
+            k += 2
+            h.tick(1, dt=4500)                  # stall: both are due now
+            h.tick(2)
+            h.tick(1, dt=T + 3000)              # and now both have timed out (message time-out 1 s): store empty again
+            h.tick(1)
+        for d in (-1, 0, 1, 4, 7):
+            a = r.randrange(1, (mp - 20) // 2)
+            b = r.randrange(1, (mp - 20) // 2)
+            c3 = mp + 2 - 15 - a - b + d
+            for n in (a, b, c3):
+                h.send(fill(k, n), 1); h.tick(1); k += 1
+            h.tick(1, dt=4500)
+            h.tick(2)
+            h.tick(1, dt=T + 3000)
+            h.tick(1)
+        return h
+
     def tiny(role, mtu, retry, n, ln):
         """n messages of length ln in one burst (count limit 255 and the capacity interact)"""
         h = Hist(role, mtu, "tiny")
@@ -481,6 +513,7 @@ def gen_histories(run):
         hs.append(boundary(role, mtu, r.choice([0, 1, -1]) if run.thorough() else 0))
         if not run.thorough() or mtu % 8 == 0:
             hs.append(pairs(r.choice(["client", "server"]), mtu))
+            hs.append(retry_pairs(r.choice(["client", "server"]), mtu))
     if not run.thorough():
         for retry in (1, -1):
             hs.append(boundary("client", 1500, retry))
